@@ -540,6 +540,8 @@ pub struct WorldCfg {
     pub now_secs: u64,
     /// trusted TXO oracle keys the node is configured with (plain memory-store worlds)
     pub trusted_oracles: Vec<PublicKey>,
+    /// the node is created with `use_checkpoints = false` (chain followed from the genesis block)
+    pub no_checkpoints: bool,
 }
 
 impl WorldCfg {
@@ -551,6 +553,7 @@ impl WorldCfg {
             policy: make_default_simple_policy(Network::Testnet),
             now_secs: 1_700_000_000,
             trusted_oracles: vec![],
+            no_checkpoints: false,
         }
     }
 }
@@ -670,6 +673,9 @@ impl World {
         };
         let mut config = NodeConfig::new(cfg.network);
         config.key_derivation_style = cfg.style;
+        if cfg.no_checkpoints {
+            config.use_checkpoints = false;
+        }
         let node = Arc::new(Node::new(config, &cfg.seed, vec![], services));
         // as HandlerBuilder::build does for a new node
         node.add_allowlist(&[]).expect("allowlist");
